@@ -19,11 +19,11 @@ LEVEL = 'exploration'
 RULE = ('grid (exhaustive every run): direction {request->server, response->client} x request method {GET,HEAD,POST} x status '
         '{200,204,304,404,100-then-200,103-with-its-own-content-length-then-200} x content-length {absent,0,n,n-1,n+1} x body n in {0,1,10} split into 1-3 DATA frames '
         '(empty frame first/last) x padding {none,0,7} x END_STREAM on {HEADERS, last DATA, extra empty DATA, trailers} x HEAD '
-        'request trailers {no,yes}; plus random larger bodies and chunkings (3000 quick, 400000 thorough), 40% of them with a refused local call (header '
+        'request trailers {no,yes}; plus random larger bodies and chunkings (6000 quick, 400000 thorough), 40% of them with a refused local call (header '
         'block naming another method, trailers without END_STREAM, invalid response) made on the stream before the message arrives, and under varying receive-side configuration (header_encoding, inbound validation / normalisation) and '
         'target naming (:authority or host); non-trivial = message reached its '
         'END_STREAM frame or was rejected and the verdict was compared; distinct = grid cell')
-MINIMA = {'messages_judged': 3000, 'malformed_expected': 800, 'wellformed_expected': 800, 'no_content_responses': 300, 'informational_with_content_length': 300, 'refused_local_call_before_the_message': 250, 'messages_under_non_default_configuration': 1000}
+MINIMA = {'messages_judged': 3000, 'malformed_expected': 800, 'wellformed_expected': 800, 'no_content_responses': 300, 'informational_with_content_length': 300, 'refused_local_call_before_the_message': 250, 'messages_under_non_default_configuration': 1000, 'promise_with_another_method_before_the_response': 80}
 EXHAUSTIVE = {}
 
 METHODS = [b'GET', b'HEAD', b'POST']
@@ -61,7 +61,7 @@ GRID = build_grid()
 
 
 def n_cases(tier):
-    return len(GRID) + (3000 if tier == 'quick' else 400000)
+    return len(GRID) + (6000 if tier == 'quick' else 400000)
 
 
 def clval(cl, n):
@@ -115,7 +115,7 @@ def run_case(idx, rng, tier, rep):
 
 
 NOISE = ['headers-with-another-method', 'headers-with-another-method-on-open-stream', 'trailers-without-end-stream',
-         'invalid-response', 'response-without-status']
+         'invalid-response', 'response-without-status', 'promise-with-another-method', 'promise-with-another-method']
 
 
 def refused(t, rep, *call, **kw):
@@ -173,6 +173,16 @@ def run_cell(cell, rep, layer):
             assert r.ok
         if noise == 'headers-with-another-method' and not refused(t, rep, 'send_headers', sid, other, end_stream=True):
             return
+        if noise == 'promise-with-another-method':
+            # the server promises a request of another method on this stream before it answers: that says nothing about the
+            # request the client made
+            pid = h.peer_next
+            h.peer_next += 2
+            r0 = h.send(wire.build_push_promise(sid, pid, hb([(b':method', b'GET' if method == b'HEAD' else b'HEAD'), (b':scheme', b'https'),
+                                                                (b':authority', b'example.com'), (b':path', b'/pushed')])))
+            if not r0.ok:
+                return
+            rep.count('promise_with_another_method_before_the_response')
         final = status
         if status == '100+200':
             frames.append((wire.build_headers(sid, hb([(b':status', b'100')])), False))
